@@ -894,3 +894,26 @@ V("W4-ordering-not-coerced", "C19", ["C19.W1"], [(FORMULAPY, "        ordering =
 V("W4-variables-after-rewrite", "C10", ["C10.W1"], [("formulaic/utils/stateful_transforms.py", "    if variables is not None:\n        variables.update(get_expression_variables(code, env, aliases))\n", ""),
                                                       ("formulaic/utils/stateful_transforms.py", "    # Compile mutated AST\n", "    if variables is not None:\n        variables.update(get_expression_variables(code, env, aliases))\n\n    # Compile mutated AST\n")], "wave 4: C10-u2")
 V("W4-empty-matrix-untrimmed", "C06", ["C06.W2"], [(PANDASM, "            values = numpy.empty((self.nrows - len(drop_rows), 0))", "            values = numpy.empty((self.nrows, 0))")], "wave 4: C06-u2 (distilled)")
+
+# ----------------------------------------------------------------------------------------- wave 5 (distilled from seeded/<PID>-v<k>)
+SANTOK = "formulaic/parser/algos/sanitize_tokens.py"
+LMAPPY = "formulaic/utils/layered_mapping.py"
+TERMFILE = "formulaic/parser/types/term.py"
+STRUCTPY = "formulaic/utils/structured.py"
+POLYPY = "formulaic/transforms/poly.py"
+V("W5-scan-stripped-text", "C15", ["C15.R8"], [("formulaic/parser/algos/tokenize.py", "    for i, char in enumerate(formula):", "    for i, char in enumerate(formula.strip()):")], "wave 5: C15-v3")
+V("W5-replacement-template", "C15", ["C15.W3"], [(SANTOK, "lambda _, orig=orig: f\"`{orig}`\",", "f\"`{orig}`\",")], "wave 5: C15-v2 / C14-v1")
+V("W5-replacement-template-c14", "C14", ["C14.W3"], [(SANTOK, "lambda _, orig=orig: f\"`{orig}`\",", "f\"`{orig}`\",")], "wave 5: C14-v1")
+V("W5-null-search-error-swallowed", "C06", ["C06.R4"], [(BASE, "            raise ValueError(\n                f\"Error encountered while checking for nulls in `{name}`: {e}\"\n            ) from e", "            return")], "wave 5: C06-v3 (distilled)")
+V("W5-empty-layers-dropped", "C19", ["C19.R2"], [(LMAPPY, "        return [layer for layer in layers if layer is not None]", "        return [layer for layer in layers if layer is not None and len(layer) > 0]")], "wave 5: C19-v1")
+V("W5-lt-by-factor-count", "C19", ["C19.R4"], [(TERMFILE, "            if self.degree == other.degree:\n                return sorted(self.factors) < sorted(other.factors)\n            if self.degree < other.degree:\n                return True\n            return False",
+                                              "            if len(self.factors) != len(other.factors):\n                return len(self.factors) < len(other.factors)\n            return sorted(self.factors) < sorted(other.factors)")], "wave 5: C19-v2")
+V("W5-simplify-aliases-structure", "C19", ["C19.R4"], [(STRUCTPY, "        structure = structured._structure.copy()", "        structure = structured._structure")], "wave 5: C19-v3")
+V("W5-encoder-gets-copy-of-state", "C09", ["C09.R1"], [(BASE, "                            encoder_state=encoder_state,\n                            model_spec=spec,", "                            encoder_state=dict(encoder_state),\n                            model_spec=spec,")], "wave 5: C02-v2")
+V("W5-scaling-conflict-only-products", "C01", ["C01.W3"], [(PARSER, "                if term_hash in seen_terms:", "                if len(term.factors) > 1 and term_hash in seen_terms:")], "wave 5: C01-v2")
+V("W5-recorded-norm-overwritten", "C04", ["C04.R1"], [(POLYPY, "    P[:, 0] = 1\n", "    P[:, 0] = 1\n    norms2[0] = float(x.shape[0])\n")], "wave 5: C04-v3")
+V("W5-spanned-term-skipped", "C03", ["C03.R1"], [(BASE, "                term_span = (\n                    self._get_scoped_terms_spanned_by_evaled_factors(evaled_factors)\n                    - spanned\n                )\n",
+                                                "                term_span = (\n                    self._get_scoped_terms_spanned_by_evaled_factors(evaled_factors)\n                    - spanned\n                )\n                if not term_span:\n                    continue\n")], "wave 5: C10-v1")
+V("W5-poly-rejects-degree-zero", "C11", ["C11.W2"], [(POLYPY, "    if raw:\n", "    if degree < 1:\n        raise ValueError(\"`degree` must be at least 1.\")\n\n    if raw:\n")], "wave 5: C11-v2")
+V("W5-caches-on-the-class", "C18", ["C18.R8"], [(BASE, "        self.factor_cache: dict[str, EvaluatedFactor] = {}\n", "        self.factor_cache = type(self).factor_cache\n"),
+                                               (BASE, "    REGISTER_NAME: Optional[str] = None\n", "    REGISTER_NAME: Optional[str] = None\n    factor_cache: dict = {}\n")], "wave 5: C18-v3 (distilled)")
